@@ -415,12 +415,20 @@ impl Storage {
         let key = Key::Meta(LAST_STATE_KEY).into_vec();
         let mut value = total_difficulty.to_le_bytes().to_vec();
         value.extend(tip_header.as_slice());
-        #[cfg(feature = "verif")]
-        crate::verif_hooks::point("write", "update_last_state");
-        self.db
-            .put(key, &value)
-            .expect("db put last state should be ok");
-        self.update_last_n_headers(last_n_headers);
+        let headers_key = Key::Meta(LAST_N_HEADERS_KEY).into_vec();
+        let mut headers_value: Vec<u8> = Vec::with_capacity(last_n_headers.len() * 40);
+        for header in last_n_headers {
+            headers_value.extend(header.number().to_le_bytes());
+            headers_value.extend(header.hash().as_slice());
+        }
+        // The last state and its last n headers have to be written atomically: a last state
+        // with the last n headers of an older one can't recognize a fork.
+        let mut batch = self.batch();
+        batch.put(key, &value).expect("batch put should be ok");
+        batch
+            .put(headers_key, &headers_value)
+            .expect("batch put should be ok");
+        batch.commit().expect("db put last state should be ok");
     }
 
     pub fn get_last_state(&self) -> (U256, Header) {
@@ -438,19 +446,6 @@ impl Storage {
             .expect("tip header should be inited")
     }
 
-    pub fn update_last_n_headers(&self, headers: &[HeaderView]) {
-        let key = Key::Meta(LAST_N_HEADERS_KEY).into_vec();
-        let mut value: Vec<u8> = Vec::with_capacity(headers.len() * 40);
-        for header in headers {
-            value.extend(header.number().to_le_bytes());
-            value.extend(header.hash().as_slice());
-        }
-        #[cfg(feature = "verif")]
-        crate::verif_hooks::point("write", "update_last_n_headers");
-        self.db
-            .put(key, &value)
-            .expect("db put last n headers should be ok");
-    }
     pub fn get_last_n_headers(&self) -> Vec<(u64, Byte32)> {
         let key = Key::Meta(LAST_N_HEADERS_KEY).into_vec();
         self.db
